@@ -1,7 +1,8 @@
 """C02 — Parameter and result values round-trip exactly (E1: exhaustive type x boundary-value x transport grid).
 
 One Protocol is synthesised (``exec`` of generated source with real annotation objects in its namespace) that has,
-for every supported parameter type ``T``: ``e_T(x: T) -> T`` and ``d_T(x: T = default) -> T``; and for every
+for every supported parameter type ``T``: ``e_T(x: T) -> T`` and ``d_T(x: T = default) -> T`` (the default of an
+Optional type is a non-None value, so ``d_T(x=None)`` and ``d_T()`` are distinguishable); and for every
 ordered pair ``(A, B)`` of a 10-type representative set: ``p_A_B(a: A, b: B = default) -> A`` and
 ``q_A_B(a: A, b: B) -> B``.  The implementation records the kwargs it receives and returns the value.  Every method
 is called with every value of the per-type boundary set over every transport of the tier through the real client
@@ -91,7 +92,9 @@ UTC = dt.timezone.utc
 class TypeSpec:
     def __init__(self, name: str, ann: Any, good: list[Any], bad: list[tuple[str, Any]], kind: str, default: Any = None) -> None:
         self.name, self.ann, self.good, self.bad, self.kind = name, ann, good, bad, kind
-        self.default = good[0] if default is None else default
+        # an Optional parameter gets a NON-None default, so that an explicit None and an omitted argument are different calls
+        first = next((g for g in reversed(good) if g is not None), None) if good and good[0] is None else (good[0] if good else None)
+        self.default = first if default is None else default
 
 
 _TABLE: dict[bool, dict[str, TypeSpec]] = {}
@@ -485,6 +488,12 @@ def run_item(ctx: Any, drivers: dict[str, Driver], item: Any, only: int | None =
                 out = judge_bad(ctx, drv, f"e_{n}", n, label, "x", {"x": v}, {"item": item, "i": idx})
                 ctx.case(sample=None if ctx.evaluations % 97 else {"transport": tr, "call": f"e_{n}(x={v!r:.60}) [{label}]", "outcome": out}, nontrivial=(tr, ts.kind, "bad-" + label), outcome=(tr, "bad", out))
             idx += 1
+            if label == "none":
+                # an explicit None for a defaulted NON-optional parameter is not "argument omitted"
+                if want(idx):
+                    out = judge_bad(ctx, drv, f"d_{n}", n, "none-with-default", "x", {"x": v}, {"item": item, "i": idx})
+                    ctx.case(nontrivial=(tr, ts.kind, "bad-none-with-default"), outcome=(tr, "bad", out))
+                idx += 1
     else:
         ta = tab[n]
         for b in PAIR_SET:
